@@ -29,6 +29,12 @@ Fixpoint dropP {A} (p : positive) (l : list A) {struct p} : list A :=
 Definition drop (off : Z) (l : list Z) : list Z :=
   match off with Zpos p => dropP p l | _ => l end.
 
+(* the length of the stream, counted in binary by a tail-recursive loop (= Bytes.zlen,
+   Proofs/C01Lemmas.v zlenT_eq): streams of several MB are measured without a deep recursion *)
+Fixpoint zlen_from {A} (acc : Z) (l : list A) : Z :=
+  match l with [] => acc | _ :: t => zlen_from (acc + 1) t end.
+Definition zlenT {A} (l : list A) : Z := zlen_from 0 l.
+
 (* ------------------------------------------------------------------ containers *)
 (* a field of a parsed construct Container: int, bytes (Array of bytes / padding),
    list of ints, or the name an Enum adapter substituted *)
